@@ -167,7 +167,7 @@ func (r *Run) ExecStep(st Step) {
 		r.DoCorrupt(st.Disk)
 	case st.Disk != nil:
 		r.DoDisk(st.Disk)
-		if st.Disk.Kind == "tail_torn" || st.Disk.Kind == "legacy_task" {
+		if st.Disk.Kind == "tail_torn" || st.Disk.Kind == "legacy_task" || st.Disk.Kind == "inflate" {
 			r.resyncQuiet()
 		}
 	case st.Batch != nil:
